@@ -33,6 +33,7 @@ Statement level
   * an `if` of which only some leaves return / raise, followed by a short tail ending in return / raise: the tail
     is moved to the leaves that fall through (every exit becomes a leaf of one decision tree)
   * `if a: S elif b: S else: T` -> `if a or b: S else: T` (equal arms, simple tests)
+  * `x: T = v` -> `x = v` (annotations of simple names carry no behaviour)
   * `a, b = (x, y)` -> `a = x`; `b = y` (plain distinct names not read on the right)
   * `if (x := E): S` -> `x = E; if x: S`; a walrus in a later conjunct of an else-less test nests the test
   * `x = A if c else B` -> `if c: x = A else: x = B`, likewise `return A if c else B` (whole-value conditionals)
@@ -373,6 +374,19 @@ def _split_tuple_assigns(stmts):
     return out
 
 
+def _strip_annotations(stmts):
+    """`x: T = v` -> `x = v`; a bare `x: T` is dropped (annotations of locals have no run-time effect)"""
+    out = []
+    for s in stmts:
+        if isinstance(s, ast.AnnAssign) and isinstance(s.target, ast.Name):
+            if s.value is None:
+                continue
+            out.append(_loc(ast.Assign(targets=[s.target], value=s.value), s))
+        else:
+            out.append(s)
+    return out or ([_loc(ast.Pass(), stmts[0])] if stmts else [])
+
+
 def _expand_walrus(stmts):
     """`if (x := E): S` -> `x = E; if x: S`;  `if A and (x := E) and B: S` (no else) -> `if A: x = E; if x and B: S`"""
     out = []
@@ -623,6 +637,7 @@ def canon_block(stmts):
     stmts = [canon_stmt(s) for s in stmts]
     if len(stmts) > 1:
         stmts = [s for s in stmts if not isinstance(s, ast.Pass)] or stmts[:1]
+    stmts = _strip_annotations(stmts)
     stmts = _expand_walrus(stmts)
     stmts = _expand_ifexp(stmts)
     stmts = _split_tuple_assigns(stmts)
